@@ -1658,6 +1658,24 @@ example : FirstBefore { owner := "root", name := "x", kind := .explicit } { owne
     (by decide) (by decide) (by decide) (by decide) (by decide) (by decide)
 
 
+/-! ## LOGICAL operands that may be UNKNOWN -/
+
+/-- **Where the emitted `and or not !=` agree with EXPRESS's three-valued AND OR NOT XOR, exactly**: AND and OR are wrong for
+one pair of operands each — UNKNOWN on the left with TRUE on the right (`Unknown and True` is `True`, EXPRESS says UNKNOWN;
+`Unknown or True` is the Unknown object, EXPRESS says TRUE) —, NOT is wrong for UNKNOWN (`not Unknown` is `False`), XOR is
+wrong as soon as an operand is UNKNOWN; everywhere else they agree.  (Model of Python on `True`, `False` and the runtime's
+truthy `Unknown` object; the disagreements are the finding `body-value:logical-unknown-operand`.) -/
+theorem C18_logical_operators_with_unknown :
+    (∀ a b, Body.pyAnd3 a b = Spec.Body.and3 a b ↔ ¬ (a = .u ∧ b = .t)) ∧
+    (∀ a b, Body.pyOr3 a b = Spec.Body.or3 a b ↔ ¬ (a = .u ∧ b = .t)) ∧
+    (∀ a, Body.pyNot3 a = Spec.Body.not3 a ↔ a ≠ .u) ∧
+    (∀ a b, Body.pyXor3 a b = Spec.Body.xor3 a b ↔ (a ≠ .u ∧ b ≠ .u)) := by
+  refine ⟨?_, ?_, ?_, ?_⟩
+  · intro a b; cases a <;> cases b <;> decide
+  · intro a b; cases a <;> cases b <;> decide
+  · intro a; cases a <;> decide
+  · intro a b; cases a <;> cases b <;> decide
+
 /-! ## the order among the listed supertypes -/
 
 /-- the attributes a supertype `p` contributes: its own and those of its direct and indirect supertypes -/
